@@ -43,7 +43,7 @@ EXPLANATION = "all kinds are seeded samples; the descriptor pool is small so tha
 
 FN = ["a", "b", "c", "ts", "ts_description", "d", "e", "x", "when"]
 T15 = ["string", "varint", "datetime", "uint16", "uint32", "float", "bytes", "boolean", "string[]", "varint[]",
-       "datetime[]", "path", "net.ipaddress", "digest", "uri", "filesize"]
+       "datetime[]", "path", "net.ipaddress", "digest", "uri", "filesize", "dynamic"]
 TN = ["test/a", "test/b", "t/x", "other/name", "a"]
 RESERVED = ["_source", "_classification", "_generated", "_version"]
 
@@ -69,9 +69,18 @@ def _gen_desc(r, nmin=1, nmax=5, dt_bias=False, allow_dup=False):
     return [r.choice(TN), fields]
 
 
+def _gen_val(r, t):
+    if t == "dynamic" and r.chance(45):
+        # a dynamic field holding a value that already is a flow field type: composition hands that very value over
+        tt = r.choice(["boolean", "uri", "filesize", "uint16", "uint32", "wstring", "unix_file_mode", "digest", "float",
+                       "net.ipaddress", "path", "bytes", "varint", "string"])
+        return ["typed", tt, V.gen_value(r, tt, none_chance=0)]
+    return V.gen_value(r, t, none_chance=15)
+
+
 def _gen_rec(r, **kw):
     ds = _gen_desc(r, **kw)
-    vals = [V.gen_value(r, t, none_chance=15) for t, _ in ds[1]]
+    vals = [_gen_val(r, t) for t, _ in ds[1]]
     return ["rec", ds, vals, V.gen_meta(r)]
 
 
